@@ -1,6 +1,7 @@
 import SodiumModel.Driver.Common
 import SodiumModel.Driver.C01
 import SodiumModel.Driver.C04
+import SodiumModel.Driver.C06
 import SodiumModel.Spec.Curve25519
 import SodiumModel.Spec.Ed25519
 import SodiumModel.Spec.Scalar25519
@@ -64,24 +65,10 @@ def handle (op : String) (args : List String) : Option String :=
     match beforenm false epk sk with
     | none => some (decLine (c.length - 48) ⟨-1, 0, none⟩)
     | some k => some (decLine (c.length - 48) (Aead.secretboxOpenEasy Sodium.Driver.C01.pSalsa true (c.drop 32) nonce k))
-  | "sign.seed_keypair", [seed] => do
-    let seed ← ofHex seed; let pk := Ed25519.publicKey sha512 seed
-    some s!"{toHex pk} {toHex (seed ++ pk)}"
-  | "sign.detached", [m, sk] => do some (toHex (Ed25519.sign sha512 ((← ofHex sk).take 32) (← ofHex m)))
-  | "sign.verify", [sig, m, pk] => do
-    some (if Ed25519.verifyStrict sha512 (← ofHex sig) (← ofHex m) (← ofHex pk) then "0" else "-1")
-  | "sign.open", [sm, pk] => do
-    let sm ← ofHex sm; let pk ← ofHex pk
-    if sm.length < 64 then some s!"-1 0 -" else
-    let m := sm.drop 64
-    if Ed25519.verifyStrict sha512 (sm.take 64) m pk then some s!"0 {m.length} {toHex m}"
-    else some s!"-1 0 {toHex (zeros m.length)}"
-  | "sign.ph", "create" :: sk :: cs => do
-    let sk ← ofHex sk; let cs ← cs.mapM ofHex
-    some (toHex (Ed25519.signPh sha512 (sk.take 32) cs.flatten))
-  | "sign.ph", "verify" :: sig :: pk :: cs => do
-    let cs ← cs.mapM ofHex
-    some (if Ed25519.verifyStrictPh sha512 (← ofHex sig) cs.flatten (← ofHex pk) then "0" else "-1")
+  -- C06: key generation, signing, verification and open run the model of sign.c / open.c / keypair.c
+  -- (Model/Sign.lean) instantiated with the Spec primitives; see Driver/C06.lean
+  | "sign.seed_keypair", _ | "sign.detached", _ | "sign.verify", _ | "sign.open", _ | "sign.ph", _ =>
+    Sodium.Driver.C06.handle op args
   | "sign.pk_to_curve", [pk] => do some (rcHex (Ed25519.pkToCurve25519 (← ofHex pk)))
   | "sign.sk_to_curve", [sk] => do some s!"0 {toHex (Ed25519.skToCurve25519 sha512 ((← ofHex sk).take 32))}"
   | "ed.valid", [p] => do some (if Ed25519.isValidPoint (← ofHex p) then "1" else "0")
